@@ -832,6 +832,28 @@ func (o *oracles) checkC16(rep reporter) {
 			treeBad("dangling-parent", "pool %s names unknown parent %s", p.Name, p.Parent)
 		}
 	}
+	// "sockets, dies and NUMA nodes below, redundant levels omitted": a NUMA
+	// node with CPUs and memory is a level of the tree unless a die or socket
+	// pool already stands for exactly its CPUs
+	for _, n := range m.Nodes {
+		if n.MemKB == 0 || len(n.CPUs) == 0 {
+			continue
+		}
+		mine := setOf(n.CPUs).inter(online).inter(avail)
+		if len(mine) == 0 {
+			continue
+		}
+		res.Check("numa-level")
+		found := false
+		for i := range sn.Pools {
+			if cpusOf(&sn.Pools[i]).equal(mine) {
+				found = true
+			}
+		}
+		if !found {
+			treeBad("numa-level", "no pool stands for NUMA node %d (%s, %d kB, normal=%v), whose available CPUs are %s", n.ID, n.Type, n.MemKB, n.Normal, mine)
+		}
+	}
 	// CPU-less PMEM/HBM nodes are attached exactly to the pools that contain
 	// one of their closest CPU-bearing DRAM nodes
 	for _, n := range m.Nodes {
